@@ -9,6 +9,7 @@ import Driver.Merge
 import Driver.Assorter
 import Driver.Status
 import Driver.IrvBallot
+import Driver.Dominion
 open Lean Shangrla Shangrla.Drv
 
 def dispatch (g op : String) (a : Json) : R Json :=
@@ -19,6 +20,7 @@ def dispatch (g op : String) (a : Json) : R Json :=
   | "assorter" => AssorterH.handle op a
   | "status" => StatusH.handle op a
   | "irvballot" => IrvBallotH.handle op a
+  | "dominion" => DominionH.handle op a
   | _ => throw s!"unknown group {g}"
 
 def handleLine (line : String) : String :=
